@@ -195,10 +195,24 @@ def conv_feature(kind, tmpl):
     return ",".join(sorted(feats))[:40]
 
 
-def judge(cases, checker, col=None):
+def aug_form(expr, i):
+    """`tmpl % args` as `t = tmpl; t %= args` on one line (None if expr is not a % expression)."""
+    try:
+        node = ast.parse(expr, mode="eval").body
+    except SyntaxError:
+        return None
+    if not (isinstance(node, ast.BinOp) and isinstance(node.op, ast.Mod)):
+        return None
+    return f"r{i} = {ast.unparse(node.left)}; r{i} %= {ast.unparse(node.right)}"
+
+
+def judge(cases, checker, col=None, aug=False):
+    """aug=True: the augmented-assignment spelling of every %-format case (same oracle: `t %= a` raises iff `t % a` does)."""
     lines = ["def body():"]
+    if aug:
+        cases = [c for i, c in enumerate(cases) if c[1] == "%" and aug_form(c[0], i) is not None]
     for i, (expr, kind, is_bytes, tmpl) in enumerate(cases):
-        lines.append(f"    r{i} = {expr}")
+        lines.append(f"    {aug_form(expr, i)}" if aug else f"    r{i} = {expr}")
     src = "\n".join(lines) + "\n"
     res = sut.check_source(src, checker=checker, collect_values=True)
     if res.raised is not None:
@@ -206,7 +220,7 @@ def judge(cases, checker, col=None):
     by = res.by_line()
     inferred = {}
     for n in ast.walk(res.tree):
-        if isinstance(n, ast.Assign):
+        if isinstance(n, ast.Assign) and not aug:
             inferred[n.lineno] = res.values_of(n.value)
     fails = []
     for i, (expr, kind, is_bytes, tmpl) in enumerate(cases):
@@ -224,8 +238,8 @@ def judge(cases, checker, col=None):
         if col is not None:
             need_ok = kind == "%" and _needed(tmpl) > 0
             nontriv = (ok and need_ok) or (not ok and not re.search(r"not enough|not all arguments|out of range", str(out)))
-            col.case(nontrivial_id=expr if nontriv else None,
-                     label=[f"kind:{kind}{'-bytes' if is_bytes else ''}", "cpython-ok" if ok else f"cpython-{type(out).__name__}",
+            col.case(nontrivial_id=(expr, aug) if nontriv else None,
+                     label=[f"kind:{kind}{'-bytes' if is_bytes else ''}{'-augassign' if aug else ''}", "cpython-ok" if ok else f"cpython-{type(out).__name__}",
                             "diagnosed" if fmt_diags else "clean"])
         if internal:
             m = re.search(r"File \"[^\"]*/pyanalyze/(\w+)\.py\", line \d+, in (\w+)\n[^\n]*\n(\w+):", internal[0].description[::-1][::-1])
@@ -262,10 +276,13 @@ def run_shard(spec):
     def make():
         @given(st.lists(case_strategy(), min_size=250, max_size=250))
         def t(cases):
-            fails = judge(cases, checker, col)
+            fails = [(f, False) for f in judge(cases, checker, col)] + [(f, True) for f in judge(cases[:80], checker, col, aug=True)]
             col.sample(cases[0][0])
-            for key, what, expr, kind, is_bytes, tmpl in fails:
+            for (key, what, expr, kind, is_bytes, tmpl), is_aug in fails:
                 case = {"expr": expr, "kind": kind, "bytes": is_bytes, "tmpl": tmpl}
+                if is_aug:
+                    case["aug"] = True
+                    what = "[as `t = template; t %= args`] " + what
                 if col.is_known(key) or key in col.seen_keys:
                     col.fail(key, what, case)
                     continue
@@ -281,7 +298,7 @@ def run_shard(spec):
 
 
 def replay_all(case):
-    fails = judge([(case["expr"], case["kind"], case["bytes"], case["tmpl"])], sut.new_checker())
+    fails = judge([(case["expr"], case["kind"], case["bytes"], case["tmpl"])], sut.new_checker(), aug=bool(case.get("aug")))
     return [{"key": k, "what": w, "case": case} for k, w, *_ in fails]
 
 
